@@ -12,9 +12,11 @@ Facets
 ``merge``    dd.merge / DataFrame.merge / DataFrame.join; how in inner/left/right/outer/
              leftsemi; keys: ``on`` (1-2 columns), ``left_on/right_on``, both indexes,
              column-index mixtures, ``on`` naming the index, default keys (shared
-             columns); key dtypes int/str/float/categorical (column forms)/datetime and
-             int-vs-float; duplicates (many-to-many), keys missing on either side, NA keys
-             (NaN, None);
+             columns); key dtypes int/str/float/categorical (column forms)/datetime, bool and
+             nullable Int64/UInt8/Float64/boolean (column forms), and mixed across the sides:
+             int-vs-float, int32-vs-int64, Int64-vs-int64; two-key lists mixing an int-like
+             key with a str/bool/Int64/boolean flag; duplicates (many-to-many), keys missing
+             on either side, NA keys (NaN, None, pd.NA);
              suffixes, indicator, broadcast (None/True/False/float), shuffle_method
              (None/tasks/disk), ``npartitions=``; 1..6 partitions per side incl. empty
              partitions; known and unknown divisions; optionally a pandas right operand, and
@@ -87,6 +89,19 @@ False alarms corrected (the check, not dask, was wrong):
   non-identical indexes are generated unique.
 * the C41 divisions monitor was dropped from this module (it recomputed every partition; divisions are
   not part of the statement).
+
+Key dtypes (second round): bool, nullable Int64/UInt8/Float64/boolean with pd.NA, int32-vs-int64,
+Int64-vs-int64 and two-key lists with a bool/nullable flag were added after a seeded change in
+``_split_partition`` (numeric cast before hashing narrowed to numpy int/uint/float) passed the check: the
+generator only had int64/float64/str/datetime/categorical keys, for which both hashing sites agree.
+A broadcast join needs how != inner AND a broadcast side with >= 2 partitions to split the other side
+by hash at all; this is now reached on purpose (complete block B, ``_rand_merge_bcast``) and counted
+(``broadcast-join&nullable-or-bool-key``, with a floor).  On the unchanged tree nothing new fired for these
+dtypes (2 800 cases, seeds 0 and 1): pandas and dask agree, including pd.NA keys matching pd.NA keys.
+Categorical keys are supported by dask for column keys and were already generated; bool / nullable keys
+are likewise generated for column forms only (a bool or NA-bearing index is not a partitionable index),
+and the mixed-dtype kinds are not combined with leftsemi (the harness reference keeps the left dtypes;
+pandas defines no dtype for a semi join of int32 with int64 keys).
 
 Genuine differences are listed in ``PENDING`` and written up in ``findings_proposed/C39.md``.
 """
@@ -665,9 +680,10 @@ def _merge_features(case, L, R, lddf, rddf, plan, kw):
     f["empty-partition-r"] = _has_empty_partition(case["rpart"], len(R), rddf) if hasattr(rddf, "npartitions") else False
     f["right-is-pandas"] = isinstance(rddf, pd.DataFrame)
     f["chain"] = case.get("chain", {}).get("how")
-    kdt = [str(df[c].dtype) for df, ks in ((L, lk), (R, rk)) for c in ks if c != "@index"]
-    f["key-dtypes"] = kdt
-    f["nullable-or-bool-key"] = any(d in ("bool", "boolean") or d[:1] in "IUF" and d[1:2].islower() for d in kdt)
+    kdt = [df[c].dtype for df, ks in ((L, lk), (R, rk)) for c in ks if c != "@index"]
+    f["key-dtypes"] = [str(d) for d in kdt]
+    f["nullable-or-bool-key"] = any(str(d) == "bool" or (pd.api.types.is_extension_array_dtype(d) and
+                                                          (pd.api.types.is_numeric_dtype(d) or str(d) == "boolean")) for d in kdt)
     f["broadcast-join-partition-counts"] = case.get("_bj")
     return f
 
@@ -1203,7 +1219,9 @@ def run_case(case, ctx):
 
 RULE = ("cases = one description per program: merge (frame seeds/rows, key dtype int/str/float/categorical/datetime/"
         "int-vs-float, key universe and shift [duplicates, keys missing on either side], NA keys, key form [on 1-2 columns, "
-        "left_on/right_on, both indexes, column-index, on=<index name>, default keys], how incl. leftsemi, suffixes, "
+        "left_on/right_on, both indexes, column-index, on=<index name>, default keys], bool / nullable Int64, UInt8, "
+        "Float64, boolean keys with pd.NA, int32-vs-int64 and Int64-vs-int64 keys, two-key lists with a str/bool/Int64/"
+        "boolean second key, how incl. leftsemi, suffixes, "
         "indicator, api dd.merge/DataFrame.merge/DataFrame.join, broadcast None/True/False/float, shuffle_method "
         "None/tasks/disk, npartitions=, partitioning of both sides incl. empty partitions and unknown divisions, optional "
         "pandas right operand, optional second merge on the same key), merge_asof (key dtype, on/left_on+right_on/"
@@ -1211,7 +1229,8 @@ RULE = ("cases = one description per program: merge (frame seeds/rows, key dtype
         "with known divisions), concat axis=0 (2-3 DataFrames/Series, column subsets, index family, stacked or overlapping "
         "divisions, join, interleave_partitions, ignore_unknown_divisions), concat axis=1 (known divisions with any "
         "partitioning, or unknown divisions with identical partitioning). First the complete product how x key form x "
-        "{broadcast, hash-tasks, hash-disk} x partition counts x indicator on one fixed pair of frames, then seeded random "
+        "{broadcast, hash-tasks, hash-disk} x partition counts x indicator on one fixed pair of frames and the complete "
+        "product B (broadcast joins with a multi-partition broadcast side on bool/nullable keys), then seeded random "
         "cases. non-trivial = both inputs >= 2 rows, >= 1 result row, some input with >= 2 partitions; distinct = distinct "
         "description")
 ASSUMPTIONS = [
@@ -1227,6 +1246,8 @@ _QF = {"merge_compared": 950, "plan_broadcast_join": 110, "plan_hash_join_disk":
        "plan_indexed_repartition": 55, "plan_blockwise_only": 150, "merge_how_leftsemi": 80, "merge_how_outer": 220,
        "merge_na_keys": 85, "merge_many_to_many": 600, "merge_int_float_keys": 170, "merge_indicator": 400,
        "merge_empty_partition": 230, "merge_unknown_divisions": 600, "merge_chained": 70,
+       "merge_nullable_or_bool_key": 360, "broadcast-join&nullable-or-bool-key": 150, "merge_mixed_multi_key": 150,
+       "merge_int32_int64_keys": 45,
        "asof_compared": 200, "asof_tolerance": 90, "asof_by": 120, "asof_both_multi_partition": 150, "asof_nearest": 65,
        "asof_forward": 60, "asof_backward": 60,
        "concat0_compared": 240, "concat0_interleaved_plan": 18, "concat0_different_columns": 170,
@@ -1246,9 +1267,9 @@ EXHAUSTIVE_SPACE = {
              "{inner,left,right,outer,leftsemi} x key form {on, index-index, column-index, index-column} x "
              "{broadcast=True, hash join tasks, hash join disk} x partition counts {(1,3),(3,1),(2,3),(3,2),(3,3)} x "
              "indicator {False,True} (leftsemi: forms on and index-column only, no indicator; index-column is "
-             "NotImplementedError = unsupported once fixes_ready/C39_05 is applied)",
+             "NotImplementedError = unsupported once fixes_ready/C39_05 is applied); plus block B: fixed pair (30 x 24 rows) x key dtype {bool, Int64+NA, boolean+NA, Float64+NA, UInt8, Int64-vs-int64+NA} x how {left,right,leftsemi} x keys {on 1 column, on [key, bool flag], left_on/right_on [key, Int64 flag]} x 3 partition-count pairs that make the broadcast side multi-partition, broadcast=True",
     "thorough": "the same product with key forms {on, on 2 columns, left_on/right_on, index-index, column-index, "
-                "index-column} and partition counts {(1,1),(1,3),(3,1),(2,3),(3,2),(3,3),(2,5)}",
+                "index-column} and partition counts {(1,1),(1,3),(3,1),(2,3),(3,2),(3,3),(2,5)}; plus block B as in quick",
 }
 CASE_TIMEOUT = 90
 CLAIM = ("Every generated merge / join / merge_asof / concat program was executed on the real dask.dataframe API "
